@@ -31,7 +31,8 @@ from lib import core
 PROPS = 'EdbVerif/Props/C08.lean'
 REQUIRED = ['EdbVerif.C08.' + n for n in (
     'C08_kinds', 'C08_kinds_complete', 'C08_classes', 'C08_flags', 'C08_dml', 'C08_dml_recorded',
-    'C08_sound', 'C08_precise', 'C08_declare', 'C08_group', 'C08_script', 'C08_make_error')]
+    'C08_sound', 'C08_precise', 'C08_declare', 'C08_chain', 'C08_group', 'C08_script', 'C08_make_error',
+    'C08_history', 'C08_history_one_level_counterexample')]
 
 SDL = '''
 type User { required name: str; multi logs: Log; multi tags: int64; }
@@ -464,22 +465,22 @@ def gen_fn_specs(rng, quick: bool) -> list[FnSpec]:
             for lk in FN_DML:
                 level1.append(add([cn], lk, 'none', top=True))
                 add([cn], lk, rng.choice(['none', 'mod']), top=False)
-    for _ in range(12 if quick else 400):
+    for _ in range(8 if quick else 400):
         chain = [rng.choice(names) for _ in range(rng.choice([2, 2, 3]))]
         level1.append(add(chain, rng.choice(FN_DML), rng.choice(['none', 'none', 'mod'])))
-    for _ in range(5 if quick else 60):          # declared lower than inferred: must be rejected
+    for _ in range(3 if quick else 60):          # declared lower than inferred: must be rejected
         add([rng.choice(names)], rng.choice(FN_DML), 'low')
-    for _ in range(6 if quick else 120):         # declared-Modifying callee with a pure body: caller not Modifying
+    for _ in range(4 if quick else 120):         # declared-Modifying callee with a pure body: caller not Modifying
         add([rng.choice(names)], 'noop', rng.choice(['none', 'none', 'low', 'mod']))
-    for _ in range(6 if quick else 60):          # pure controls
+    for _ in range(4 if quick else 60):          # pure controls
         add([rng.choice(names)], rng.choice(['rd', 'logs', 'lit']), rng.choice(['none', 'low']))
     # call chains: g calls a generated f (whose DML sits in some context), h calls g
     level2 = []
-    for _ in range(10 if quick else 200):
+    for _ in range(8 if quick else 200):
         f = rng.choice(level1)
         chain = [rng.choice(names) for _ in range(rng.choice([0, 1, 1]))]
         level2.append(add(chain, f.call, rng.choice(['none', 'none', 'mod']), deps=(f.name,)))
-    for _ in range(4 if quick else 60):
+    for _ in range(3 if quick else 60):
         g = rng.choice(level2)
         chain = [rng.choice(names) for _ in range(rng.choice([0, 1]))]
         add(chain, g.call, 'none', deps=(g.name,))
@@ -518,6 +519,120 @@ FN_EXTRA_LEAVES = {
     'insert': '(insert Log { msg := "fx" })', 'update': '(update Log set { n := 2 })', 'delete': '(delete Log)',
     'mklog': 'mklog()', 'pure': '(select Log)',
 }
+
+
+# ======================================================= function histories
+# a history = list of DDL statements over functions `<p>_<name>`; after EVERY step the oracle looks at
+# every function of the history: "writes, transitively, per the CURRENT bodies" => stored volatility
+# Modifying => `select fn()` (and script forms) carry MODIFICATIONS.
+HW = ['select (insert Log {{ msg := "h", n := 1 }}).n', 'with x := (insert Log {{ msg := "h" }}) select x.n',
+      'select count((delete Log))', 'for x in {{1}} union (update Log set {{ n := x }}).n',
+      'select (select {{ a := (insert Log {{ msg := "h" }}) }}).a.n']
+HP = ['select 1', 'select count(Log)', 'select <int64>{{}}']
+HC1 = ['select {a}()', 'select {a}() ?? 0', 'with v := {a}() select v', 'select (select {a}())',
+       'for z in {{1}} union {a}()', 'select {{ {a}(), 1 }}']
+HC2 = ['select {{ {a}(), {b}() }}', 'select {a}() ?? {b}()', 'with u := {a}() select {b}()']
+
+
+def _cf(n, body, vol=None):
+    v = f"set volatility := '{vol}'; " if vol else ''
+    return f'create function {n}() -> set of int64 {{ {v}using ({body}) }};'
+
+
+def _au(n, body):
+    return f'alter function {n}() using ({body});'
+
+
+def _av(n, vol):
+    return f"alter function {n}() set volatility := '{vol}';"
+
+
+def _rv(n):
+    return f'alter function {n}() reset volatility;'
+
+
+def fixed_histories():
+    H = []
+    w, pu = HW[0].format(), HP[0].format()
+    # 1. chain h -> f -> g, leaf starts writing, the top is then declared Volatile / reset
+    H.append(('chain3-raise', ['g', 'f', 'h'], [
+        _cf('P_g', pu), _cf('P_f', 'select P_g()'), _cf('P_h', 'select P_f()'),
+        _au('P_g', w), _av('P_h', 'Volatile'), _rv('P_h'), _av('P_f', 'Volatile'), _av('P_h', 'Stable')]))
+    # 3. diamond
+    H.append(('diamond', ['l', 'm1', 'm2', 't'], [
+        _cf('P_l', pu), _cf('P_m1', 'select P_l()'), _cf('P_m2', 'for z in {1} union P_l()'),
+        _cf('P_t', 'select { P_m1(), P_m2() }'),
+        _au('P_l', HW[3].format()), _av('P_t', 'Volatile'), _au('P_m1', pu), _av('P_t', 'Volatile'),
+        _au('P_m2', pu), _av('P_t', 'Volatile'), _au('P_m2', 'select P_l()'), _rv('P_t')]))
+    # 2. depth 4, leaf writes, top raised, leaf stops writing, resets
+    H.append(('chain4', ['a', 'b', 'c', 'd'], [
+        _cf('P_a', HP[1].format()), _cf('P_b', 'select P_a() ?? 0'), _cf('P_c', 'with v := P_b() select v'),
+        _cf('P_d', 'select (select P_c())'),
+        _au('P_a', HW[1].format()), _av('P_d', 'Volatile'), _av('P_c', 'Volatile'), _au('P_a', pu),
+        _rv('P_d'), _au('P_a', HW[2].format()), _av('P_d', 'Volatile'), _av('P_d', 'Modifying'), _rv('P_d')]))
+    # 4. the middle starts / stops writing
+    H.append(('middle', ['x', 'y', 'z', 'zz'], [
+        _cf('P_x', pu), _cf('P_y', 'select P_x()'), _cf('P_z', 'select P_y()'), _cf('P_zz', 'select P_z() ?? 1'),
+        _au('P_y', HW[4].format()), _av('P_zz', 'Volatile'), _av('P_z', 'Volatile'),
+        _au('P_y', 'select P_x()'), _av('P_zz', 'Volatile'), _au('P_x', w), _av('P_zz', 'Stable')]))
+    # 5. rename, then the renamed leaf writes
+    H.append(('rename', ['p', 'p2', 'q', 'r'], [
+        _cf('P_p', pu), _cf('P_q', 'select P_p()'), _cf('P_r', 'select P_q()'),
+        'alter function P_p() rename to P_p2;', _au('P_p2', w), _av('P_r', 'Volatile'),
+        'alter function P_q() rename to P_p;', _av('P_r', 'Volatile'), _rv('P_r')]))
+    # 6. drop + recreate
+    H.append(('drop-recreate', ['q', 'r', 's', 't'], [
+        _cf('P_q', pu), _cf('P_r', 'select P_q()'), _cf('P_s', 'select P_r()'), 'drop function P_s();',
+        _au('P_q', w), _cf('P_s', 'select P_r()'), _cf('P_t', 'select P_s()', 'Volatile'),
+        _cf('P_t', 'select P_s()'), _av('P_t', 'Stable'), 'drop function P_q();', 'drop function P_t();',
+        _au('P_q', pu), _cf('P_t', 'select P_s()', 'Volatile'), _au('P_q', w)]))
+    # 7. declared Modifying first (pure body), later really writing, declaration reset
+    H.append(('declared-first', ['k', 'm', 'n'], [
+        _cf('P_k', pu, 'Modifying'), _cf('P_m', 'select P_k()'), _cf('P_n', 'select P_m()'),
+        _rv('P_k'), _au('P_k', w), _rv('P_k'), _av('P_n', 'Volatile'), _av('P_k', 'Volatile'),
+        _au('P_k', pu), _av('P_n', 'Volatile'), _au('P_k', w)]))
+    # 8. the top is declared Volatile while everything is pure, then the leaf starts writing
+    H.append(('declared-top', ['u', 'v', 'w'], [
+        _cf('P_u', pu), _cf('P_v', 'select P_u()'), _cf('P_w', 'select P_v()'),
+        _av('P_w', 'Volatile'), _au('P_u', w), _rv('P_w'), _au('P_u', w), _av('P_w', 'Volatile'),
+        _au('P_v', 'select P_u() ?? P_u()'), _av('P_w', 'Volatile')]))
+    return H
+
+
+def random_history(rng, k):
+    names = [f'n{i}' for i in range(rng.randrange(3, 6))]
+    steps = []
+    exist = []
+    for i, n in enumerate(names):
+        if i == 0:
+            body = rng.choice(HP).format()
+        elif i >= 2 and rng.random() < 0.3:
+            a, b = rng.sample(exist, 2)
+            body = rng.choice(HC2).format(a='P_' + a, b='P_' + b)
+        else:
+            body = rng.choice(HC1).format(a='P_' + rng.choice(exist[-2:]))
+        steps.append(_cf('P_' + n, body))
+        exist.append(n)
+    for _ in range(rng.randrange(4, 10)):
+        r = rng.random()
+        n = rng.choice(exist)
+        i = names.index(n)
+        if r < 0.35:
+            if i == 0 or rng.random() < 0.4:
+                body = rng.choice(HW + HP).format()
+            else:
+                body = rng.choice(HC1).format(a='P_' + rng.choice(names[:i]))
+            steps.append(_au('P_' + n, body))
+        elif r < 0.7:
+            steps.append(_av('P_' + n, rng.choice(['Volatile', 'Volatile', 'Stable', 'Immutable', 'Modifying'])))
+        elif r < 0.85:
+            steps.append(_rv('P_' + n))
+        elif r < 0.93:
+            steps.append(f'drop function P_{n}();')
+        else:
+            body = rng.choice(HC1).format(a='P_' + rng.choice(names[:i])) if i else rng.choice(HP).format()
+            steps.append(_cf('P_' + n, body, rng.choice([None, 'Volatile'])))
+    return (f'random{k}', names, steps)
 
 
 # ================================================================ real side
@@ -1327,6 +1442,124 @@ def run(ctx: core.Ctx):
         elif real[0] == 'rej' and real[1] == 'internal':
             internal.append({'text': text, 'error': real[2]})
 
+    hist_stats = {'histories': 0, 'steps': 0, 'steps_accepted': 0, 'fn_states': 0, 'writing_fn_states': 0,
+                  'caller_compiles': 0, 'stale_nonwriting_modifying': 0}
+
+    def run_history(tag, names, steps, prefix, upto=None, only=None):
+        """apply the DDL steps one by one through the real DDL path; after every step judge every
+        function of the history against the CURRENT definitions"""
+        hist_stats['histories'] += 1
+        sch = R.schema
+        steps = [st.replace('P_', prefix + '_') for st in steps]
+        fnames = [prefix + '_' + n for n in names]
+        last = {}
+        for i, st in enumerate(steps if upto is None else steps[:upto + 1]):
+            hist_stats['steps'] += 1
+            try:
+                sch2 = R.env.run_ddl(sch, st)
+                accepted = True
+            except R.errors.EdgeDBError:
+                sch2, accepted = sch, False
+            except Exception as e:
+                internal.append({'text': '; '.join(steps[:i + 1]), 'error': f'{type(e).__name__}: {e}'[:200]})
+                sch2, accepted = sch, False
+            if not accepted:
+                continue
+            hist_stats['steps_accepted'] += 1
+            sch = sch2
+            R._schemas.append(sch)
+            memo = R._memo.setdefault(id(sch), {})
+            final = (i == len(steps) - 1)
+            sctx = None
+            for fn_name in fnames:
+                fns = sch.get_functions('default::' + fn_name, default=())
+                if not fns:
+                    last.pop(fn_name, None)
+                    continue
+                fn = fns[0]
+                w = R.fn_can_write(sch, fn, memo)
+                vol = str(fn.get_volatility(sch))
+                hist_stats['fn_states'] += 1
+                hist_stats['writing_fn_states'] += bool(w)
+                if not w and vol == 'Modifying':
+                    hist_stats['stale_nonwriting_modifying'] += 1
+                detail = {'history': {'tag': tag, 'names': names, 'steps': [x.replace(prefix + '_', 'P_') for x in steps],
+                                      'prefix': prefix, 'upto': i}, 'fn': fn_name, 'stored_volatility': vol,
+                          'writes_via': w[:1]}
+                hkey = f'hist:{tag}:{" ".join(steps[:i + 1])} :: {fn_name}'
+                if w and vol != 'Modifying':
+                    ctx.fail('oracle:' + hkey, f'after this DDL history {fn_name}() writes (per the current bodies: '
+                             f'{w[0]}) but is stored with volatility {vol}', detail)
+                state = (bool(w), vol)
+                if last.get(fn_name) == state and not final:
+                    continue
+                last[fn_name] = state
+                if only is not None and fn_name != only:
+                    continue
+                # quick tier: statements only for the top of the call graph (and for any function caught
+                # with a wrong stored volatility); thorough: every function whose state changed
+                present = [n for n in fnames if sch.get_functions('default::' + n, default=())]
+                if ctx.quick() and replay is None and fn_name != present[-1] and not (w and vol != 'Modifying'):
+                    continue
+                if sctx is None:
+                    sctx = R.env.server_context(sch)
+                texts = [f'select {fn_name}()']
+                if final or (w and not ctx.quick()) or (w and vol != 'Modifying'):
+                    texts.append(rng.choice([f'select 1; select {fn_name}()', f'with x := {fn_name}() select x',
+                                             f'analyze select {fn_name}()', f'select count({fn_name}())']))
+                for t in texts:
+                    real = R.compile(t, sctx)
+                    hist_stats['caller_compiles'] += 1
+                    if real[0] == 'ok':
+                        if w:
+                            distinct.add(hkey + t)
+                        if w and not (real[1] & MOD):
+                            ctx.fail('oracle:' + hkey + ' :: ' + t, f'after this DDL history `{t}` executes '
+                                     f'{fn_name}() which writes ({w[0]}) but the statement carries no MODIFICATIONS '
+                                     f'(stored volatility of {fn_name}: {vol})', detail | {'text': t, 'capabilities': real[1]})
+                        if not w:
+                            precision['no_dml_cases'] += 1
+                            precision['no_dml_flagged'] += bool(real[1] & MOD)
+                    elif real[1] == 'internal':
+                        internal.append({'text': t, 'error': real[2]})
+
+    def group_binding_probe():
+        """KNOWN CANDIDATE in the unmodified code: `__infer_group_stmt` ignores the WITH bindings of a GROUP
+        statement, so a function whose only DML is `with x := (insert …) group …` is stored Stable/Volatile.
+        Fixed names and texts => stable keys `oracle:group-bindings:*`."""
+        probes = [
+            ('gw1', 'select count((with x := (insert Log { msg := "gw" }) group User by .name))'),
+            ('gw2', 'select count((with x := (insert Log { msg := "gw" }) group User using r := random() by r))'),
+            ('gw3', 'select count((with x := (delete Log) group User by .name))'),
+            ('gw4', 'select count((with x := (update Log set { n := 1 }), y := 1 group User by .name))'),
+            ('gw5', 'select gw1()'),                                   # chain
+            ('gw6', 'with x := (insert Log { msg := "gw" }) select count((group User by .name))'),   # control
+        ]
+        sch = R.schema
+        made = []
+        for name, body in probes:
+            ddl = f'create function {name}() -> set of int64 using ({body});'
+            real = R.create_fn(sch, ddl, name)
+            stats['fn_created'] += 1
+            if real[0] != 'ok':
+                continue
+            sch = real[1]
+            made.append((name, ddl, real))
+            if real[3] and not real[2]:
+                ctx.fail(f'oracle:group-bindings:def:{name}', f'`{ddl}`: the body contains DML ({real[3][0]}) but the '
+                         f'function is stored with volatility {real[4]}', {'group_probe': True, 'ddl': ddl,
+                                                                           'stored_volatility': real[4]})
+        sctx2 = R.env.server_context(sch)
+        for name, ddl, real in made:
+            for t in (f'select {name}()', f'select 1; select {name}()'):
+                r = R.compile(t, sctx2)
+                stats['fn_callers'] += 1
+                w = R.contains_dml(t, sch)
+                if r[0] == 'ok' and w[0] and not (r[1] & MOD):
+                    ctx.fail(f'oracle:group-bindings:call:{name}:{t}', f'`{t}` executes {name}() whose body writes '
+                             f'({w[1][0]}) but carries capabilities {r[1]} (no MODIFICATIONS); {ddl}',
+                             {'group_probe': True, 'ddl': ddl, 'text': t, 'capabilities': r[1]})
+
     def extra_function_bodies():
         """function bodies outside MiniQL (free-object shapes inside tuples, arrays, ??, IF, FOR, nested
         free objects...), volatility NOT declared, created through the real DDL path; oracle only"""
@@ -1335,7 +1568,7 @@ def run(ctx: core.Ctx):
         n = 0
         tmpls = list(FN_EXTRA_BODIES)
         if ctx.quick():      # the core free-object positions always, a rotating sample of the rest
-            tmpls = tmpls[:8] + rng.sample(tmpls[8:], 8)
+            tmpls = tmpls[:8] + rng.sample(tmpls[8:], 5)
         for tmpl in tmpls:
             lks = list(FN_EXTRA_LEAVES)
             if ctx.quick():
@@ -1429,6 +1662,7 @@ def run(ctx: core.Ctx):
                      no_input=True)
 
     # ------------------------------------------------------------ populations
+    gp_done: list = []
     if replay is not None:
         for f in replay:
             d = f.get('detail') or {}
@@ -1438,6 +1672,13 @@ def run(ctx: core.Ctx):
                 l1_group(d['caps'])
             elif d.get('l1') == 'mkerr':
                 l1_mkerr(d['s'], d['a'])
+            elif d.get('group_probe'):
+                if not gp_done:
+                    group_binding_probe()
+                    gp_done.append(1)
+            elif 'history' in d:
+                h = d['history']
+                run_history(h['tag'], h['names'], h['steps'], h['prefix'], upto=h['upto'])
             elif 'volinfer' in d:
                 sch = R.schema
                 for ddl in d['volinfer']['ddls']:
@@ -1555,8 +1796,21 @@ def run(ctx: core.Ctx):
         ctx.log(f'callers of generated functions done: {stats["fn_callers"]} compiles, {time.time() - t0:.1f}s')
         t0 = time.time()
         extra_function_bodies()
+        t_extra = time.time() - t0
+        group_binding_probe()
+        t0 = time.time()
+        fh = fixed_histories()
+        if ctx.quick():      # the two basic shapes always, two of the other six rotating with the seed
+            rest = fh[2:]
+            fh = fh[:2] + [rest[(2 * ctx.seed) % len(rest)], rest[(2 * ctx.seed + 1) % len(rest)]]
+        for k, (tag, hnames, hsteps) in enumerate(fh):
+            run_history(tag, hnames, hsteps, f'hf{k}')
+        for k in range(ctx.budget(0, 150)):
+            tag, hnames, hsteps = random_history(rng, k)
+            run_history(tag, hnames, hsteps, f'hr{k}')
+        ctx.log(f'function histories done in {time.time() - t0:.1f}s: {hist_stats}')
         ctx.log(f'hand-written function bodies (free-object shapes ...) and their callers done in '
-                f'{time.time() - t0:.1f}s: {fn_hist}')
+                f'{t_extra:.1f}s: {fn_hist}')
 
         # ---- level 2 (b)
         for tmpl in EXTRA_CONTEXTS:
@@ -1664,6 +1918,7 @@ def run(ctx: core.Ctx):
         'precision_record': precision,
         'generated_functions': fn_hist,
         'body_volatility_inference': vol_hist,
+        'function_histories': hist_stats,
         'statement_kinds_under_context_flags': flag_hist,
         'generated_functions_by_annotation': fn_annot_hist,
         'statement_kinds': kinds_cov,
